@@ -21,6 +21,9 @@ type Ctx struct {
 	nilA  *nilAnalysis
 	typImm int
 	wantBnd bool
+	proveCache map[*State]map[string]bool
+	infeasCache map[*State]bool
+	proverCache map[*State]*bndProver
 }
 
 func newCtx(p *Program, prop, tier string) *Ctx {
